@@ -249,7 +249,8 @@ func (f *Func) redefineInputs(opts ...Arg) (reflect.Type, error) {
 // NOTE(mitchellh): today, we just validate the outputs. In the future,
 // we'll chain converters to reach a desired output.
 func (f *Func) redefineOutputs(opts ...Arg) error {
-	builder, err := newArgBuilder(opts...)
+	// Use the function's default options as well, like redefineInputs does.
+	builder, err := f.argBuilder(opts...)
 	if err != nil {
 		return err
 	}
